@@ -287,6 +287,7 @@ def main():
     changed |= write_if_changed(os.path.join(OUT, "AggSrc.lean"), extract_tail.render_agg_src(extract_tail.agg_src(parse)))
     changed |= write_if_changed(os.path.join(OUT, "MetaSrc.lean"), extract_tail.render_meta_src(extract_tail.meta_src(parse)))
     changed |= write_if_changed(os.path.join(OUT, "RawDc.lean"), extract_tail.render_raw_dc_src(extract_tail.raw_dc_src(parse)))
+    changed |= write_if_changed(os.path.join(OUT, "TryShapes.lean"), extract_tail.render_try_shapes(extract_tail.try_shapes(parse)))
     changed |= write_if_changed(os.path.join(OUT, "ConstraintsSrc.lean"), extract_tail.render_constraints(extract_tail.constraints_src(parse)))
     print("generated", "changed" if changed else "unchanged")
 
